@@ -4,7 +4,7 @@ from __future__ import annotations
 import ast
 import typing as T
 
-from ..core import Undecided, attr_chain, norm, short, walk_no_nested, call_method
+from ..core import Undecided, attr_chain, norm, short, walk_no_nested, call_method, names_in
 from ..paths import enumerate_paths, Path
 from ..consteval import fold_expr
 from ..report import RuleCtx
@@ -203,28 +203,62 @@ def _missing_visitor(ctx: RuleCtx, model: NodeModel, cls: str) -> None:
 
 
 # -- terminals ---------------------------------------------------------------------------------------
-def _parts(e: ast.AST, node: str) -> T.List[T.Any]:
+def _parts(e: ast.AST, node: str, defs: T.Optional[T.Dict[str, ast.AST]] = None, depth: int = 0) -> T.List[T.Any]:
     if isinstance(e, ast.Constant) and isinstance(e.value, str):
         return [e.value]
+    if isinstance(e, ast.Name) and defs and e.id in defs and depth < 4:
+        return _parts(defs[e.id], node, defs, depth + 1)   # single-definition local: use its reaching definition
     if isinstance(e, ast.JoinedStr):
         out: T.List[T.Any] = []
         for v in e.values:
             if isinstance(v, ast.FormattedValue):
                 if v.format_spec is not None or v.conversion != -1:
                     raise Undecided(f'formatted value {short(v)}')
-                out += _parts(v.value, node)
+                out += _parts(v.value, node, defs, depth)
             else:
-                out += _parts(v, node)
+                out += _parts(v, node, defs, depth)
         return out
     if isinstance(e, ast.BinOp) and isinstance(e.op, ast.Add):
-        return _parts(e.left, node) + _parts(e.right, node)
+        return _parts(e.left, node, defs, depth) + _parts(e.right, node, defs, depth)
     if isinstance(e, ast.Attribute) and isinstance(e.value, ast.Name) and e.value.id == node:
         return [('field', e.attr)]
     if isinstance(e, ast.Call) and isinstance(e.func, ast.Name) and e.func.id in ('str', 'repr', 'format') and len(e.args) == 1 and not e.keywords:
-        return _parts(e.args[0], node)
+        return _parts(e.args[0], node, defs, depth)
     if isinstance(e, ast.IfExp):
-        return [('if', norm(e.test).replace(node + '.', 'node.'), _parts(e.body, node), _parts(e.orelse, node))]
+        return [('if', norm(e.test).replace(node + '.', 'node.'), _merge(_parts(e.body, node, defs, depth)), _merge(_parts(e.orelse, node, defs, depth)))]
     raise Undecided(f'printed expression `{short(e)}`')
+
+
+def _single_defs(fn: ast.AST) -> T.Dict[str, ast.AST]:
+    count: T.Dict[str, int] = {}
+    val: T.Dict[str, ast.AST] = {}
+    for st in walk_no_nested(fn):
+        tgts: T.List[ast.AST] = []
+        if isinstance(st, ast.Assign):
+            tgts = list(st.targets)
+        elif isinstance(st, (ast.AugAssign, ast.AnnAssign, ast.For, ast.NamedExpr)):
+            tgts = [st.target, st.target]
+        for t in tgts:
+            for n in ast.walk(t):
+                if isinstance(n, ast.Name):
+                    count[n.id] = count.get(n.id, 0) + 1
+                    if isinstance(st, ast.Assign) and isinstance(t, ast.Name):
+                        val[n.id] = st.value
+    return {k: v for k, v in val.items() if count.get(k) == 1}
+
+
+def _expand(parts: T.List[T.Any], cm: T.Dict[str, bool]) -> T.List[T.Tuple[T.List[T.Any], T.Dict[str, bool]]]:
+    for i, p in enumerate(parts):
+        if isinstance(p, tuple) and p[0] == 'if':
+            test, neg = p[1], False
+            if test.startswith('not '):
+                test, neg = test[4:], True
+            out = []
+            for v in ([cm[test]] if test in cm else [True, False]):
+                body = p[2] if (v != neg) else p[3]
+                out += _expand(parts[:i] + list(body) + parts[i + 1:], {**cm, test: v})
+            return out
+    return [(parts, cm)]
 
 
 def _merge(parts: T.List[T.Any]) -> T.List[T.Any]:
@@ -292,19 +326,26 @@ def check_terminals(ctx: RuleCtx, model: NodeModel, bool_map: T.Dict[str, T.Any]
         roles = model.roles(cls)
         carries = any(role == 'tok' for _, role in roles)
         raws = raw_fields(model, cls) if carries else {}
+        defs = _single_defs(fn)
+        cases: T.List[T.Tuple[Path, T.List[T.Any], T.Dict[str, bool]]] = []
         for p in enumerate_paths(fn.body, unroll=1):
             if p.outcome == 'raise':
                 continue
-            adds: T.List[T.Any] = []
+            adds0: T.List[T.Any] = []
             for st in p.stmts():
                 if isinstance(st, ast.AugAssign) and attr_chain(st.target) == 'self.result' and isinstance(st.op, ast.Add):
-                    adds += _parts(st.value, node)
+                    adds0 += _parts(st.value, node, defs)
                 elif isinstance(st, (ast.Assign, ast.AugAssign)) and 'self.result' in norm(st):
                     raise Undecided(f'{qn}: `{short(st)}`')
-            adds = _merge(adds)
-            cm = {k.replace(node + '.', 'node.'): v for k, v in p.cond_map().items() if k.startswith(node + '.')}
+            cm0 = {k.replace(node + '.', 'node.'): v for k, v in p.cond_map().items() if k.startswith(node + '.')}
+            if cls in bool_map:
+                cases.append((p, _merge(adds0), cm0))
+            else:
+                # a conditional piece of text is a branch on its test: split the path (both truth values unless the path decides it)
+                cases += [(p, _merge(a), c) for a, c in _expand(adds0, cm0)]
+        for p, adds, cm in cases:
             n += 1
-            what = f'{cls} via {qn} on `{p.describe()}`'
+            what = f'{cls} via {qn} on `{p.describe()}`' + (f' with {cm}' if len([1 for q, _, _ in cases if q is p]) > 1 else '')
             if not carries:
                 ctx.require(adds == [], f'{what}: prints nothing (the class carries no token)', vmod, qn, f'text of {cls}', f'{cls} carries no token but {adds} is printed', fn)
                 continue
@@ -382,36 +423,38 @@ def lexer_facts(ctx: RuleCtx, model: NodeModel) -> T.Tuple[T.Dict[str, T.Any], T
                             if (kw, const) not in bool_map.setdefault(c.args[0].id, []):
                                 bool_map[c.args[0].id].append((kw, const))
     strip: T.Dict[str, T.Tuple[int, int]] = {}
-    lex = mod.func('Lexer.lex')
+    from .c02_lex import lex_roles
+    R = lex_roles(mod)
+    lex = R['lex']
     for st in ast.walk(lex):
-        if isinstance(st, ast.Assign) and norm(st.targets[0]) == 'value' and isinstance(st.value, ast.Subscript) and norm(st.value.value) == 'value' \
+        if isinstance(st, ast.Assign) and norm(st.targets[0]) == R['value'] and isinstance(st.value, ast.Subscript) and norm(st.value.value) == R['value'] \
                 and isinstance(st.value.slice, ast.Slice):
             sl = st.value.slice
             for tid in ('string', 'fstring', 'multiline_string', 'multiline_fstring'):
-                arm = _arm_of(lex, st)
-                if arm is None or not _tid_in(ctx, mod, arm, tid):
+                arm = _arm_of(lex, st, R['tid'])
+                if arm is None or not _tid_in(ctx, mod, arm, tid, R['tid']):
                     continue
-                lo = fold_expr(ctx.repo, mod, sl.lower, env={'tid': tid}) if sl.lower is not None else 0
-                hi = fold_expr(ctx.repo, mod, sl.upper, env={'tid': tid}) if sl.upper is not None else 0
+                lo = fold_expr(ctx.repo, mod, sl.lower, env={R['tid']: tid}) if sl.lower is not None else 0
+                hi = fold_expr(ctx.repo, mod, sl.upper, env={R['tid']: tid}) if sl.upper is not None else 0
                 strip[tid] = (lo, -hi)
     return bool_map, strip
 
 
-def _arm_of(fn: ast.AST, st: ast.AST) -> T.Optional[ast.AST]:
+def _arm_of(fn: ast.AST, st: ast.AST, tidvar: str) -> T.Optional[ast.AST]:
     for n in ast.walk(fn):
         if isinstance(n, ast.If) and any(x is st for b in n.body for x in ast.walk(b)):
             best = n
             for m in ast.walk(n):
-                if isinstance(m, ast.If) and m is not n and any(x is st for b in m.body for x in ast.walk(b)) and 'tid' in norm(m.test):
+                if isinstance(m, ast.If) and m is not n and any(x is st for b in m.body for x in ast.walk(b)) and tidvar in names_in(m.test):
                     best = m
-            if 'tid' in norm(best.test):
+            if tidvar in names_in(best.test):
                 return best.test
     return None
 
 
-def _tid_in(ctx: RuleCtx, mod: T.Any, test: ast.AST, tid: str) -> bool:
+def _tid_in(ctx: RuleCtx, mod: T.Any, test: ast.AST, tid: str, tidvar: str) -> bool:
     try:
-        return bool(fold_expr(ctx.repo, mod, test, env={'tid': tid}))
+        return bool(fold_expr(ctx.repo, mod, test, env={tidvar: tid}))
     except Undecided:
         return False
 
